@@ -132,12 +132,14 @@ def harness(g, chart, level, canary=False):
     started = []
 
     def on_meta(e):
+        seen_by_listener.append((e.name, it.time))      # what an observer reads from the interpreter at this moment
         if e.name == 'step started':
             started.append(e.time)
             # the clock moves right after the step time was sampled (a self-advancing clock / a busy listener)
             ls = g.real('ls%d' % cur['k'], 0)
             it.clock.time = it.clock.time + ls
             g.witness('clock_moved_during_step', ls > 0)
+    seen_by_listener = []
     it.attach(on_meta)
     entry_ref, idle_ref = {}, {}
     pending = []
@@ -148,7 +150,11 @@ def harness(g, chart, level, canary=False):
         conds = [('every_time_seen_is_step_time', And([Eq(x, now) for x in times_seen] + [True]),
                   lambda: dict(info(), seen=str(times_seen), now=str(now))),
                  ('step_started_carries_step_time', len(started) == 1 and Eq(started[0], now), info),
-                 ('interpreter_time_is_step_time', Eq(it.time, now), info)]
+                 ('interpreter_time_is_step_time', Eq(it.time, now), info),
+                 ('interpreter_time_is_step_time_at_every_meta_event',
+                  And([Eq(t_, now) for _, t_ in seen_by_listener] + [True]),
+                  lambda: dict(info(), seen=[(n_, str(t_)) for n_, t_ in seen_by_listener][:6], now=str(now)))]
+        del seen_by_listener[:]
         # contracts evaluated in the middle of the step: replay the probe log with the reference times as they were
         # at that moment (entry: entry and idle := now; transition: idle of its source := now after its postconditions)
         er, ir = dict(entry_ref), dict(idle_ref)
